@@ -20,17 +20,19 @@ def _pt(rng, mode):
     if mode == 0: return (F(rng.randint(0, 9)), F(rng.randint(0, 9)))
     if mode == 1: return (F(rng.randint(0, 30), 3), F(rng.randint(0, 30), 3))
     if mode == 2: return (F(rng.randint(-50, 50)), F(rng.choice([0, 0, 0, 1])))         # nearly collinear
+    if mode == 4: return (F(rng.randint(0, 40), 16), F(rng.randint(0, 40), 16))         # inch-scale drawing: distances below 1 (d and d^2 order differently against 1)
+    if mode == 5: return (F(10**8 + rng.randint(-3, 3)), F(rng.randint(-3, 3)))         # far from the origin: squared distances differ in the 17th digit
     return (F(rng.randint(-1000, 1000), rng.randint(1, 7)), F(rng.randint(-1000, 1000), rng.randint(1, 7)))
 
 def generate(rng, tier):
-    n = 260 if tier == "quick" else 5000
+    n = 260 if tier == "quick" else 15000
     cases = []
     for _ in range(n):
-        mode = rng.randint(0, 3)
+        mode = rng.choice([0, 1, 2, 3, 4, 4, 5])
         np_ = rng.choice([1, 1, 2, 3, 4, 6, 9, 14])
         paths = [(_pt(rng, mode), _pt(rng, mode)) for _ in range(np_)]
         if rng.random() < 0.1: paths = [paths[0]] * np_                                    # all the same path (zero extent unless reverse separates the ends)
-        bins = rng.choice([1, 2, 3, 3, 4, 10]); reverse = rng.random() < 0.5
+        bins = rng.choice([1, 2, 3, 3, 4, 10, 10]) if mode != 4 else rng.choice([10, 20, 32, 40]); reverse = rng.random() < 0.5
         alive = list(range(np_)); ops = []
         pts = [p for pa in paths for p in pa]
         xs = [p[0] for p in pts]; ys = [p[1] for p in pts]
@@ -40,7 +42,9 @@ def generate(rng, tier):
                 i = rng.choice(alive); alive.remove(i); ops.append(("r", i))
             else:
                 k = rng.random()
-                if k < 0.3: q = rng.choice(pts)
+                if mode == 5 and k < 0.35: q = (F(rng.randint(-2, 2)), F(rng.randint(-2, 2)))          # seen from 1e8 away: the ends differ in the 17th digit of the squared distance
+                elif k < 0.2: q = (paths[0][0][0] + F(rng.randint(-4, 4), 16), paths[0][0][1] + F(rng.randint(-4, 4), 16))      # next to the start of path 0 (identifier 0)
+                elif k < 0.3: q = rng.choice(pts)
                 elif k < 0.5: q = (rng.choice(pts)[0] + F(rng.randint(-3, 3), 2), rng.choice(pts)[1] + F(rng.randint(-3, 3), 2))
                 elif k < 0.75: q = _pt(rng, mode)
                 else: q = (rng.choice([min(xs) - 3 * span, max(xs) + 3 * span, _pt(rng, mode)[0]]), rng.choice([min(ys) - span, max(ys) + 5 * span, _pt(rng, mode)[1]]))
